@@ -106,7 +106,22 @@ def run_impl(case):
            "n": M.num_binary_variables, "mapping": [[C.enc(k), v] for k, v in M.mapping.items()],
            "degree": (None if M.degree == -float("inf") else int(M.degree)),
            "src": C.jterms(C.enc_terms(M, sort_keys=False))}
-    # convert_solution on every assignment of D's variables is needed by the oracle: record it lazily there
+    # the implementation's own convert_solution on assignments of D's variables (model variables 0..n-1 and ancillas), with
+    # the spin flag and -- where the values themselves tell the form -- without it
+    n = M.num_binary_variables
+    labs = sorted({i for k in D for i in k} | set(range(n)))
+    spin_out = case["meth"] in (2, 3)
+    conv = []
+    if len(labs) <= 9 and labs == list(range(len(labs))):
+        dom = (1, -1) if spin_out else (0, 1)
+        for bits in itertools.product(dom, repeat=len(labs)):
+            sol = dict(zip(labs, bits))
+            forms = [M.convert_solution(dict(sol), spin_out), M.convert_solution(list(bits), spin_out)]
+            if any(b != 1 for b in bits):           # all ones is the one ambiguous case: the flag decides it
+                forms.append(M.convert_solution(dict(sol)))
+                forms.append(M.convert_solution(tuple(bits)))
+            conv.append([list(bits), [sorted([C.enc(k), int(x)] for k, x in f.items()) for f in forms]])
+    out["conv"] = conv
     return out
 
 
@@ -189,6 +204,7 @@ def oracle(case, out):
     adequate = lam[0] == "default" or (lam[0] == "fun" and lam[1] in (0, 1)) or \
         (lam[0] == "const" and all(F(*lam[1]) >= c for c in reduced)) or (lam[0] == "fun" and lam[1] == 2 and all(1 >= c for c in reduced))
     dom_out = (1, -1) if spin_out else (0, 1)
+    convd = {tuple(b): fs for b, fs in out.get("conv", [])} if sorted(allv) == list(range(len(allv))) else {}
     best = {}
     for bits in itertools.product(dom_out, repeat=len(allv)):
         s = dict(zip(allv, bits))
@@ -202,6 +218,13 @@ def oracle(case, out):
             xs[rmp[i]] = b
         mval = ev(src, xs)
         key = tuple(xs[rmp[i]] for i in range(n))
+        got = convd.get(tuple(s[i] for i in sorted(s)))
+        if got is not None:
+            want = sorted([k, int(x)] for k, x in xs.items())
+            for j, f in enumerate(got):
+                if f != want:
+                    v.append("convert_solution(%s%s) = %s, the mapping gives %s" % (s, ", spin flag" if j < 2 else "", f, want))
+                    return v
         if adequate and dval < mval:
             v.append("D(s) = %s < M(convert_solution(s)) = %s at s = %s" % (dval, mval, s))
             return v
